@@ -230,7 +230,7 @@ theorem freeze_only_on_conflict (H keccak : Bytes → Bytes) (s : State) (msg : 
     cases hsig : verifySignatures H s.cs pr.data pr.sigs tagState with
     | error e => simp [step, hact, verifyClientMessage, hsig] at hfr
     | ok u =>
-      cases hdec : pr.decState with
+      cases hdec : pr.stateAtt with
       | none => simp [step, hact, verifyClientMessage, hsig, checkForMisbehaviour, hdec] at hfr
       | some hs =>
         obtain ⟨h, secs⟩ := hs
